@@ -9,6 +9,7 @@ cp -n /repo/Cargo.lock harness/Cargo.lock 2>/dev/null || true
 for f in ring aws nocrypto; do
   (cd harness && CARGO_TARGET_DIR=../.cache/target-$f cargo build --offline --features $f) || echo "setup: harness build for $f failed (checks will retry)"
 done
+(cd /repo && CARGO_TARGET_DIR=/verif/.cache/target-cli-ring cargo build --offline -p rustls-cert-gen) >/dev/null 2>&1 || true
 # warm the feature-matrix target used by the C16 build step
 for f in ring,pem,x509-parser,zeroize aws_lc_rs,pem,x509-parser,zeroize pem; do
   (cd /repo && CARGO_TARGET_DIR=/verif/.cache/target-matrix cargo check --offline -p rcgen --no-default-features --features $f) >/dev/null 2>&1 || true
